@@ -6,6 +6,7 @@ import (
 	"context"
 	"fmt"
 	mrand "math/rand"
+	"sort"
 	"sync"
 	"sync/atomic"
 	"time"
@@ -416,6 +417,111 @@ func unitC11sign(e common.Env, p *common.Part) {
 					p.Count("faults_effective", 1)
 				}
 				p.Sample(map[string]interface{}{"case": key})
+			}
+		}
+	}
+}
+
+// unitC11cctx: directly wired BLS / PS key generations in which one party's KeyGen runs under a context that ends at its k-th
+// consultation, for every k (and, in a second series, while another party is mute from the start, so that the waits are real).
+func unitC11cctx(e common.Env, p *common.Part) {
+	p.Rule = "directly wired BLS and PS key generations, (n,t) in {(3,2),(3,3),(4,2)}; party 1's KeyGen runs under a context that ends at its k-th consultation (Err / Done call), k = 1..M+1 with M counted in a reference run; second series: the same while party n never transmits; oracle: every KeyGen returns after all contexts ended (watchdog 8 s), none panics, party 1 returns an error whenever its context ended inside the call and nil only with public material identical to that of the other completers; distinct key = (scheme, n, t, mute?, k); non-trivial when the context ended inside the call"
+	type job struct {
+		sch  scheme
+		n, t int
+		mute bool
+	}
+	var jobs []job
+	for _, sch := range []scheme{{Name: "bls"}, {Name: "ps", MsgLen: 1}} {
+		for _, nt := range [][2]int{{3, 2}, {3, 3}, {4, 2}} {
+			jobs = append(jobs, job{sch, nt[0], nt[1], false}, job{sch, nt[0], nt[1], true})
+		}
+	}
+	idx := 0
+	for ji, j := range jobs {
+		run := func(k int64, seed int) (*drun, bool, *countCtx) {
+			var ids []uint16
+			for i := 1; i <= j.n; i++ {
+				ids = append(ids, uint16(i))
+			}
+			d := newDrun(j.sch, ids, j.t, e.Rng("c11cctx", ji, seed))
+			if j.mute {
+				d.filter = func(m dmsg, seq, g int) []dmsg {
+					if m.from == uint16(j.n) {
+						return nil
+					}
+					return []dmsg{m}
+				}
+			}
+			ctx, cancel := context.WithCancel(context.Background())
+			cc := newCountCtx(ctx, k)
+			d.ctxFor = map[uint16]context.Context{1: cc}
+			ok := d.run(ctx, cancel, ids, 8*time.Second)
+			return d, ok, cc
+		}
+		_, ok, rcc := run(0, 0)
+		M := rcc.Consultations()
+		if !ok {
+			p.Inconcl(fmt.Sprintf("%s n=%d t=%d mute=%v: reference run did not finish", j.sch.Name, j.n, j.t, j.mute))
+			continue
+		}
+		maxK := M + 1
+		if c := int64(e.Pick(25, 300)); maxK > c {
+			maxK = c
+		}
+		for k := int64(1); k <= maxK; k++ {
+			idx++
+			if !e.Mine(idx) || p.ViolationCount() >= 3 {
+				continue
+			}
+			key := fmt.Sprintf("%s n=%d t=%d party %d mute=%v: party 1's context ends at its consultation %d", j.sch.Name, j.n, j.t, j.n, j.mute, k)
+			p.Begin(key)
+			d, ok, cc := run(k, int(k))
+			inside := cc.Ended() && cc.Consultations() >= k
+			p.Case(key, inside)
+			p.Count("ctx_runs", 1)
+			if inside {
+				p.Count("faults_effective", 1)
+			}
+			wit := map[string]interface{}{"scheme": j.sch.Name, "n": j.n, "t": j.t, "mute": j.mute, "k": k}
+			d.mu.Lock()
+			panics := append([]string{}, d.panics...)
+			errs := map[uint16]error{}
+			outs := map[uint16][]byte{}
+			for id, err := range d.errs {
+				errs[id] = err
+			}
+			for id, o := range d.outs {
+				outs[id] = o
+			}
+			d.mu.Unlock()
+			switch {
+			case len(panics) > 0:
+				p.Violate("panic/"+j.sch.Name+"/context-ends-at-consultation", key+": "+panics[0], wit)
+			case !ok:
+				p.Violate("hang/"+j.sch.Name+"/context-ends-at-consultation", key+": a KeyGen had not returned 8 s after every context had ended", wit)
+			default:
+				var completers []uint16
+				for id, err := range errs {
+					if err == nil {
+						completers = append(completers, id)
+						p.Count("success_returns", 1)
+					} else {
+						p.Count("error_returns", 1)
+					}
+				}
+				sort.Slice(completers, func(a, b int) bool { return completers[a] < completers[b] })
+				if len(completers) >= 2 {
+					if v := consistentPublicMaterial(completers, outs); v != "" {
+						p.Violate("nil-error-with-inconsistent-data/"+j.sch.Name+"/context-ends-at-consultation", key+": "+v, wit)
+					}
+				}
+				if j.mute && errs[1] == nil {
+					p.Violate("nil-error-without-all-contributions/"+j.sch.Name, key+": party 1 returned key material although party "+fmt.Sprint(j.n)+" never transmitted", wit)
+				}
+			}
+			if idx%13 == 0 {
+				p.Sample(map[string]interface{}{"case": key, "consultations": cc.Consultations()})
 			}
 		}
 	}
